@@ -824,10 +824,7 @@ func (e *Engine) syncMapRange(s *State, t *Thread, f *Frame, mr MapRef, fn Closu
 func (e *Engine) retHook(s *State, t *Thread, f *Frame, rv Value) {
 	switch f.retHook {
 	case "nopcadvance":
-		// caller pc was pre-advanced: compensate the increment in doReturn
-		if c := t.top(); c != nil {
-			c.pc--
-		}
+		// handled in doReturn
 	}
 }
 
